@@ -1311,3 +1311,93 @@ def conversion_as_validator(chk, c, rule):
                    'the encoding instead of the name being refused with ChildNotFound' % norm(call),
                    '%s:%d' % (fi.module.relpath, x.lineno), key='%s|%s|%s' % (rule, fq, arg))
     chk.floor('conversions used as validity tests', n, 1)
+
+
+def structure_maps_together(chk, c, rule):
+    """`ElementFinder._parse_structure` returns the children layout of an element as several maps that describe the *same*
+    children (by HL7 name, by long name, in order, with cardinalities).  Rule: whoever copies the result of
+    `get_structure` / `_parse_structure` onto an element copies all the layout maps (a loop over all items, with at most
+    non-layout keys such as 'datatype' left out) -- otherwise one way of addressing a child (e.g. its long name) keeps
+    resolving against the previous layout after a datatype change."""
+    import ast
+    from ..src import own_nodes, norm
+    from . import pat
+    ix = c.index
+    ps = ix.func('core.ElementFinder._parse_structure')
+    if ps is None:
+        raise AnalysisError('core.ElementFinder._parse_structure not found')
+    # the layout keys: constant keys stored into the result under the sequence / choice branch
+    layout = set()
+    for n in own_nodes(ps.node):
+        if isinstance(n, ast.If) and pat.membership(n.test) and {'sequence', 'choice'} <= set(pat.membership(n.test)[1]):
+            for x in ast.walk(ast.Module(body=n.body, type_ignores=[])):
+                if isinstance(x, ast.Subscript) and isinstance(x.ctx, ast.Store) and isinstance(x.slice, ast.Constant) and \
+                        isinstance(x.value, ast.Name) and isinstance(x.slice.value, str):
+                    # only stores into the returned dictionary (a name that the function returns)
+                    if any(isinstance(r, ast.Return) and norm(r.value) == x.value.id for r in own_nodes(ps.node)):
+                        layout.add(x.slice.value)
+    if len(layout) < 3:
+        raise AnalysisError('_parse_structure: layout keys not recognised (%s)' % sorted(layout))
+    n = 0
+    for fq, fi in sorted(ix.functions.items()):
+        if fi is ps or fi.module.name != 'core':
+            continue
+        svars = {t.id for x in own_nodes(fi.node) if isinstance(x, ast.Assign) and isinstance(x.value, ast.Call) and
+                 norm(x.value.func).split('.')[-1] in ('get_structure', '_parse_structure') for t in x.targets if isinstance(t, ast.Name)}
+        if not svars:
+            continue
+        for sv in sorted(svars):
+            n += 1
+            assigned, everything, excluded = set(), False, set()
+            for x in own_nodes(fi.node):
+                if isinstance(x, ast.For):
+                    it = norm(x.iter)
+                    body_sets = [y for y in ast.walk(x) if isinstance(y, ast.Call) and norm(y.func) == 'setattr' and len(y.args) == 3]
+                    if not body_sets:
+                        continue
+                    if it in ('iteritems(%s)' % sv, '%s.items()' % sv, sv, '%s.keys()' % sv):
+                        everything = True
+                        for y in ast.walk(x):
+                            if isinstance(y, ast.If):
+                                for t in pat.conjuncts(y.test):
+                                    m = pat.non_membership(t)
+                                    if m:
+                                        excluded |= set(m[1])
+                                    m2 = pat.membership(t)
+                                    if m2 and not y.orelse:       # `if k in (...)`: only those
+                                        everything = False
+                                        assigned |= set(m2[1])
+                    elif isinstance(x.iter, (ast.Tuple, ast.List, ast.Set)) and all(isinstance(e, ast.Constant) for e in x.iter.elts):
+                        assigned |= {e.value for e in x.iter.elts}
+                if isinstance(x, ast.Assign) and len(x.targets) == 1 and isinstance(x.targets[0], ast.Attribute) and \
+                        norm(x.targets[0].value) == 'self' and isinstance(x.value, ast.Subscript) and norm(x.value.value) == sv and \
+                        isinstance(x.value.slice, ast.Constant):
+                    assigned.add(x.value.slice.value)
+            got = (layout - excluded) if everything else (assigned & layout)
+            miss = sorted(layout - got)
+            chk.ob(rule, '%s copies every layout map of the parsed structure (%s)' % (fq, ', '.join(sorted(layout))), not miss,
+                   'the layout map(s) %s are not replaced together with the others: after this assignment they still describe the '
+                   'previous structure, so children addressed that way (e.g. by long name) are not found or are the wrong ones' % miss,
+                   fi.loc, key='%s|%s|%s' % (rule, fq, ','.join(miss)))
+    chk.floor('functions that copy a parsed structure onto an element', n, 3)
+
+
+def no_process_state(chk, c, rule, funcs, what):
+    """the listed functions write no module- or class-level object (a memo keyed by less than everything the result depends on
+    makes the result depend on what the process did before)"""
+    ix, fx = c.index, c.fx
+    n = 0
+    for fq in funcs:
+        fi = ix.func(fq)
+        if fi is None:
+            continue
+        n += 1
+        bad = []
+        for w in fx.writes.get(fq, ()):
+            sh = fx.resolve_shared(w)
+            if sh:
+                bad.append('writes %s' % sorted(sh)[0][2])
+        chk.ob(rule, '%s keeps no state between calls' % fq, not bad,
+               '%s: %s then depends on the history of the process (what was parsed before), not only on the message and its '
+               'structure' % ('; '.join(sorted(set(bad))[:3]), what), fi.loc, key='%s|%s' % (rule, fq))
+    return n
